@@ -10,4 +10,4 @@ rm -rf $scratch && mkdir -p $scratch && cp -r /repo/src $scratch/src
 for prop in $props; do
   VERIF_REPO=$scratch VERIF_WORK_SUFFIX=-one-$id VERIF_EVIDENCE_DIR=/tmp/ev_seed VERIF_NO_PLAYBACK=1 VERIF_JOBS=${VERIF_JOBS:-8} python3 vcheck.py $prop --tier quick 2>&1 | grep -E "^(VIOLATION|KNOWN-FINDING|UNDECIDED|== |   obligation)" | cut -c1-300 | tail -6
 done
-rm -rf $scratch
+rm -rf $scratch work/*-one-$id
